@@ -498,3 +498,102 @@ func TestReplay(t *testing.T) { vf.ReplayEnv(t) }
 
 // native fuzz targets (thorough tier): the fuzzer mutates the byte stream that rapid decodes into generator choices
 func FuzzChecker(f *testing.F) { vf.FuzzNamed(f, "C08", "checker") }
+
+// ---- UnsatSubset with real search inside: pigeonhole core plus padding --------------------------------------
+
+// PHPSubset: the pigeonhole formula with Holes holes (minimally unsatisfiable) shuffled among padding clauses that
+// each hold a positive literal of a fresh variable: every unsatisfiable subset contains the whole pigeonhole formula.
+// The certified solve that UnsatSubset runs takes hundreds to thousands of conflicts (restarts, reductions, learned
+// clauses with tens of literals in the certificate it checks).
+type PHPSubset struct {
+	Holes int     `json:"holes"`
+	Pad   [][]int `json:"pad"`
+	Order []int   `json:"order"`
+}
+
+func checkPHPSubset(c PHPSubset, o *vf.Obs) error {
+	holes, pigeons := c.Holes, c.Holes+1
+	v := func(p, h int) int { return p*holes + h + 1 }
+	var core [][]int
+	for p := 0; p < pigeons; p++ {
+		var cl []int
+		for h := 0; h < holes; h++ {
+			cl = append(cl, v(p, h))
+		}
+		core = append(core, cl)
+	}
+	for h := 0; h < holes; h++ {
+		for p := 0; p < pigeons; p++ {
+			for q := p + 1; q < pigeons; q++ {
+				core = append(core, []int{-v(p, h), -v(q, h)})
+			}
+		}
+	}
+	all := append(oracle.CloneCNF(core), oracle.CloneCNF(c.Pad)...)
+	for i := len(all) - 1; i > 0 && len(c.Order) > 0; i-- {
+		j := (c.Order[i%len(c.Order)] + i*7) % (i + 1)
+		all[i], all[j] = all[j], all[i]
+	}
+	nv := oracle.MaxVar(all)
+	o.Class(fmt.Sprintf("holes-%d", holes))
+	o.Nontrivial()
+	pb, err := explain.ParseCNF(strings.NewReader(gs.Dimacs(nv, all)))
+	if err != nil {
+		return fmt.Errorf("explain.ParseCNF rejects a well-formed text: %v", err)
+	}
+	before := oracle.CloneCNF(pb.Clauses)
+	for round := 1; round <= 2; round++ {
+		sub, err := pb.UnsatSubset()
+		if err != nil {
+			return fmt.Errorf("call %d: UnsatSubset of an unsatisfiable problem (pigeonhole, %d holes, plus %d padding clauses) failed: %v", round, holes, len(c.Pad), err)
+		}
+		if !reflect.DeepEqual(pb.Clauses[:len(before)], before) || len(pb.Clauses) != len(before) {
+			return fmt.Errorf("call %d: UnsatSubset changed the problem", round)
+		}
+		if !oracle.SubMultiset(sub.Clauses, all) {
+			return fmt.Errorf("call %d: the result is not a sub-multiset of the input", round)
+		}
+		if !oracle.SubMultiset(core, sub.Clauses) {
+			return fmt.Errorf("call %d: the result (%d clauses) lacks a clause of the pigeonhole formula, which is minimally unsatisfiable: the result is satisfiable", round, len(sub.Clauses))
+		}
+	}
+	// and the certificate of a solver is accepted by the checker, through both entry points
+	cert, unsat := trace(nv, all)
+	if !unsat {
+		return fmt.Errorf("%w: harness: the solver did not answer Unsat", vf.ErrInconclusive)
+	}
+	o.ClassIf(len(cert) >= 100, "certificate>=100-lines")
+	for _, entry := range []string{"reader", "chan"} {
+		valid, err := runChecker(Case{Cert: cert, Entry: entry}, pb)
+		if err != nil || !valid {
+			if bad, refuted := oracle.CheckTrace(nv, all, cert); bad < 0 && refuted {
+				return fmt.Errorf("a RUP refutation of %d lines (replayed by the harness's checker) is rejected by the checker (%s): %v, %v", len(cert), entry, valid, err)
+			}
+		}
+	}
+	return nil
+}
+
+func genPHPSubset(t *rapid.T) PHPSubset {
+	sizes := []int{4, 5, 6, 6}
+	if vf.Thorough() {
+		sizes = append(sizes, 7)
+	}
+	c := PHPSubset{Holes: rapid.SampledFrom(sizes).Draw(t, "holes")}
+	n := (c.Holes + 1) * c.Holes
+	fresh := rapid.IntRange(1, 4).Draw(t, "fresh")
+	for i, k := 0, rapid.IntRange(0, 12).Draw(t, "pad"); i < k; i++ {
+		cl := []int{n + 1 + rapid.IntRange(0, fresh-1).Draw(t, "f")}
+		cl = append(cl, gen.DistinctLits(t, n, rapid.IntRange(0, 2).Draw(t, "plen"), "p")...)
+		c.Pad = append(c.Pad, cl)
+	}
+	for i := 0; i < 16; i++ {
+		c.Order = append(c.Order, rapid.IntRange(0, 1000).Draw(t, "o"))
+	}
+	return c
+}
+
+func init() {
+	vf.Register(vf.Sub[PHPSubset]{Name: "pigeonhole-plus-padding", Quick: 10, Thorough: 100, Gen: genPHPSubset, Check: checkPHPSubset, Floor: 0.9,
+		Rule: "the pigeonhole formula with 4..6 holes (7 in the thorough tier) shuffled among 0..12 padding clauses that each hold a positive literal of a fresh variable; UnsatSubset (twice) must return a sub-multiset that contains the whole pigeonhole formula and leave the problem unchanged; a solver's certificate for the problem (hundreds of lines), replayed by the harness's RUP checker, must be accepted by both entry points of the checker"})
+}
